@@ -42,7 +42,7 @@ CHECKS = {
    design_ref="DESIGN.md §5 C13"),
 
  "C11": dict(engine="authx", level="model_checking",
-   text="Explicit exploration of server state x access configuration x route x credential form with raw HTTP requests against a real in-process server: states {D1 trusted; D1+D2 trusted; D2 revoked; D2 re-trusted and revoked within one device-log patch} are reached LIVE on the serving process through real client syncs (so the server's in-memory trusted-device set is the one its handlers produced), 15 route/method pairs (account, status, events scan/diff/patch, files compare, file put/get/delete/move), 12 credential forms (none, non-base58, wrong length, legacy dotted, unknown key, D2, D1 over other bytes, another account's device, missing / malformed account header, D1 addressed to account B, valid), access configs none / allow A / allow B / deny A / deny B. Oracle: a request that must be refused is never answered 2xx and leaves every file of the server directory and both accounts' sync status unchanged.",
+   text="Explicit exploration of server state x access configuration x route x credential form with raw HTTP requests against a real in-process server: states {D1 trusted; D1+D2 trusted; D2 revoked; D2 re-trusted and revoked within one device-log patch} are reached LIVE on the serving process through real client syncs (so the server's in-memory trusted-device set is the one its handlers produced), 16 route/method pairs (account, status, events scan/diff/patch, files compare, file put/get/delete/move, websocket change feed upgrade), 12 credential forms (none, non-base58, wrong length, legacy dotted, unknown key, D2, D1 over other bytes, another account's device, missing / malformed account header, D1 addressed to account B, valid), access configs none / allow A / allow B / deny A / deny B. Oracle: a request that must be refused is never answered 2xx (or 101 for the websocket upgrade) and leaves every file of the server directory and both accounts' sync status unchanged.",
    note="Requests are sent one at a time; the combined allow+deny configuration is outside the property's quantifier; the websocket upgrade route is not driven; Ed25519 is trusted.",
    technique="explicit-state exploration of (server state x config x route x credential) on the real server; state-unchanged invariant after every refused request",
    design_ref="DESIGN.md §5 C11"),
